@@ -63,17 +63,40 @@ def run_subprocess(argv, cwd, hashseed="0", timeout=120):
     return p.returncode, p.stdout.decode("utf8", "surrogateescape"), p.stderr.decode("utf8", "surrogateescape")
 
 
+def _header_end(text):
+    """line count of the first statement if it is a bare string constant (the header), else None"""
+    import ast
+    try:
+        tree = ast.parse(text)
+    except (SyntaxError, ValueError):
+        return None
+    if tree.body and isinstance(tree.body[0], ast.Expr) and isinstance(tree.body[0].value, ast.Constant) \
+            and isinstance(tree.body[0].value.value, str):
+        return tree.body[0].end_lineno
+    return None
+
+
 def split_header(text):
-    """(header, rest) where header is the 4-line r-string block the CLI prints first (argv without newlines)"""
+    """(header, rest): the header is the first statement when it is a string constant (whatever its wording)"""
+    n = _header_end(text)
+    if n is None:
+        return None, text
     lines = text.split("\n")
-    if len(lines) >= 4 and lines[0] == 'r"""' and lines[3] == '"""':
-        return "\n".join(lines[:4]) + "\n", "\n".join(lines[4:])
-    return None, text
+    return "\n".join(lines[:n]) + "\n", "\n".join(lines[n:])
+
+
+_TS = None
 
 
 def strip_timestamp(text):
-    """drop header line 2 (the only line the property allows to differ)"""
-    lines = text.split("\n")
-    if len(lines) >= 2 and lines[0] == 'r"""' and lines[1].startswith("generated by json2python-models"):
-        lines[1] = "generated by json2python-models <timestamp>"
-    return "\n".join(lines)
+    """blank out the time stamp inside the header (the only thing the property allows to differ between runs)"""
+    global _TS
+    import re
+    if _TS is None:
+        _TS = re.compile(r"[A-Z][a-z]{2} [A-Z][a-z]{2} [ \d]\d \d\d:\d\d:\d\d \d{4}|\d{4}-\d\d-\d\d[ T]\d\d:\d\d:\d\d(\.\d+)?")
+    header, rest = split_header(text)
+    if header is None:
+        lines = text.split("\n")
+        head, tail = "\n".join(lines[:6]), "\n".join(lines[6:])
+        return _TS.sub("<timestamp>", head) + ("\n" + tail if len(lines) > 6 else "")
+    return _TS.sub("<timestamp>", header) + rest
